@@ -226,37 +226,37 @@ class chunks(object):
         #
         raChunkMin = np.zeros(decChunkMax-decChunkMin+1, dtype='i4')
         raChunkMax = np.zeros(decChunkMax-decChunkMin+1, dtype='i4')
+        sinMargin = np.sin(np.deg2rad(marginSize))
         for i in range(decChunkMin, decChunkMax+1):
+            #
+            # A cap of radius marginSize around a point at declination dec
+            # reaches arcsin(sin(marginSize)/cos(dec)) in ra, which is more
+            # than marginSize/cos(dec), and all ra if it contains the pole.
+            #
             cosDecMin = self.cosDecMin(i)
-            raChunkMin[i-decChunkMin] = int(np.floor((ra - self.raBounds[i][0]) *
-                                                     float(self.nRa[i]) /
-                                                     (self.raBounds[i][self.nRa[i]] - self.raBounds[i][0])))
-            raChunkMax[i-decChunkMin] = raChunkMin[i-decChunkMin]
-            if raChunkMin[i-decChunkMin] < 0 or raChunkMin[i-decChunkMin] > self.nRa[i]-1:
-                raise PydlutilsException("raChunkMin out of range in chunks.getbounds().")
+            if marginSize < 90.0 and sinMargin < cosDecMin:
+                raMargin = np.rad2deg(np.arcsin(sinMargin/cosDecMin))
+            else:
+                raMargin = 360.0
             #
-            # Set minimum and maximum bounds of ra
+            # Set minimum and maximum bounds of ra: all chunks that overlap
+            # the interval ra - raMargin, ra + raMargin.  Chunk numbers
+            # below zero or above nRa - 1 wrap around (see assign()).
             #
-            raCheck = raChunkMin[i-decChunkMin]
-            keepGoing = True
-            while keepGoing and raCheck > -1:
-                if raCheck >= 0 and raCheck < self.nRa[i]:
-                    keepGoing = (ra - self.raBounds[i][raCheck])*cosDecMin < marginSize
-                else:
-                    keepGoing = False
-                if keepGoing:
-                    raCheck -= 1
-            raChunkMin[i-decChunkMin] = raCheck
-            raCheck = raChunkMax[i-decChunkMin]
-            keepGoing = True
-            while keepGoing and raCheck < self.nRa[i]:
-                if raCheck >= 0 and raCheck < self.nRa[i]:
-                    keepGoing = (self.raBounds[i][raCheck+1]-ra)*cosDecMin < marginSize
-                else:
-                    keepGoing = False
-                if keepGoing:
-                    raCheck += 1
-            raChunkMax[i-decChunkMin] = raCheck
+            raRange = self.raBounds[i][self.nRa[i]] - self.raBounds[i][0]
+            raChunkMin[i-decChunkMin] = int(np.floor((ra - raMargin - self.raBounds[i][0]) *
+                                                     float(self.nRa[i]) / raRange))
+            raChunkMax[i-decChunkMin] = int(np.floor((ra + raMargin - self.raBounds[i][0]) *
+                                                     float(self.nRa[i]) / raRange))
+            if raRange < 360.0:
+                #
+                # This declination slice does not go around the sphere.
+                #
+                raChunkMin[i-decChunkMin] = max(raChunkMin[i-decChunkMin], 0)
+                raChunkMax[i-decChunkMin] = min(raChunkMax[i-decChunkMin], self.nRa[i] - 1)
+            elif raChunkMax[i-decChunkMin] - raChunkMin[i-decChunkMin] >= self.nRa[i]:
+                raChunkMin[i-decChunkMin] = 0
+                raChunkMax[i-decChunkMin] = self.nRa[i] - 1
         return (raChunkMin, raChunkMax, decChunkMin, decChunkMax)
 
     def get(self, ra, dec):
